@@ -93,7 +93,7 @@ def _expand(shard: int, nshards: int, extra) -> Tally:
 
 
 def bfs(space: Space, max_states: int = 200000, max_depth: int = 50,
-        nshards: int = 32) -> Dict[str, Any]:
+        nshards: int = 32, is_known: Optional[Callable[[List[str]], bool]] = None) -> Dict[str, Any]:
     ops = space.ops()
     seen: Dict[str, List[Any]] = {}
     frontier: List[List[Any]] = []
@@ -116,6 +116,7 @@ def bfs(space: Space, max_states: int = 200000, max_depth: int = 50,
             frontier.append(h)
     depth = 0
     capped = False
+    stopped_on_violation = False
     level_sizes = [len(frontier)]
     while frontier and depth < max_depth:
         depth += 1
@@ -136,11 +137,18 @@ def bfs(space: Space, max_states: int = 200000, max_depth: int = 50,
         level_sizes.append(len(frontier))
         if capped:
             break
+        if any(not (is_known and is_known(v["signature"])) for v in tally.violations):
+            # the invariant is already broken at this depth: the shortest witnesses are in hand;
+            # deeper levels of a broken implementation only multiply states (model and
+            # implementation diverge) and witnesses
+            stopped_on_violation = True
+            break
     return {
         "states": len(seen),
         "transitions": tally.n.get("transitions", 0),
         "depth": depth,
-        "fixpoint": not frontier and not capped,
+        "fixpoint": not frontier and not capped and not stopped_on_violation,
+        "stopped_on_violation": stopped_on_violation,
         "capped": capped,
         "level_sizes": level_sizes,
         "tally": tally,
